@@ -7,6 +7,7 @@ C18's `all_functions_balanced` over the regenerated skeleton of `CreateTCPConnec
 -/
 import TurnModel.Lemmas.ServerInv
 import TurnModel.Lemmas.ServerHandlers
+import TurnModel.Lemmas.ServerCid
 import TurnModel.Props.C03
 import TurnModel.Gen.Consts
 namespace Turn.C16
@@ -185,6 +186,38 @@ theorem dupe_446 (c : Cfg) (s : State) (lid : Nat) (a : Alloc) (p : Addr) (dialO
 theorem connect_fresh_id {c s k a peer dialOK cid p} (h : connectChecks c s k a peer dialOK cid = some (.ok p)) :
     cidUsed s k.lid cid = false ∧ granted c k p.ip = true ∧ dupeConn a p = false :=
   ⟨(connectChecks_ok h).2.2.2.1, (connectChecks_ok h).2.1, (connectChecks_ok h).2.2.1⟩
+
+/-- **a connection id names exactly one peer connection**: in every reachable state, two peer connections held
+    by allocations of the same listener (= the same allocation manager) with the same id are the same connection
+    of the same allocation — so a Connect success / ConnectionAttempt indication names a unique connection and a
+    ConnectionBind can only ever refer to that one -/
+theorem conn_id_unique {c : Cfg} {s : State} (hr : Reach c s) {a b : Alloc} (ha : a ∈ s.allocs) (hb : b ∈ s.allocs)
+    {t u : TConn} (ht : t ∈ a.conns) (hu : u ∈ b.conns) (hl : a.key.lid = b.key.lid) (hid : t.id = u.id) : a = b ∧ t = u := by
+  obtain ⟨h1, h2⟩ := cidUniq_reach hr
+  have hk : a.key = b.key := by
+    apply Classical.byContradiction
+    intro hne
+    exact h2 a ha b hb hne hl t.id (List.mem_map.mpr ⟨t, ht, rfl⟩) (List.mem_map.mpr ⟨u, hu, hid.symm⟩)
+  have hab : a = b := eq_of_key_eq (unique_reach hr).1 ha hb hk
+  subst hab
+  exact ⟨rfl, inj_of_nodup_map (fun (x : TConn) => x.id) (l := a.conns) (h1 a ha) ht hu hid⟩
+
+/-- an inbound peer connection is announced only under an id nobody at that listener is using -/
+theorem peerconn_fresh_id (c : Cfg) (s : State) (relay frm : Addr) (cid : Nat) (k : Key)
+    (h : Out.connAttempt k frm cid ∈ (step c s (.peerConn relay frm cid)).2) : cidUsed s k.lid cid = false := by
+  simp only [step] at h
+  split at h
+  · cases h
+  · rename_i a ha
+    split at h
+    · simp at h
+    · split at h
+      · simp at h
+      · rename_i hp hd
+        simp only [List.mem_singleton] at h
+        injection h with hk
+        simp only [Bool.or_eq_true, not_or] at hd
+        subst hk; simpa using hd.1
 
 /-- **pipe identity**: once bound, bytes from the client's data connection go to exactly that peer
     connection unmodified, and bytes from the peer go to exactly that data connection unmodified -/
